@@ -19,7 +19,7 @@ The property the checks are about (this is the only specification you get):
   Statement: {p['statement']}
   Quantified over: {p['quantifier']['text']}
 
-{("An earlier round of this exercise already produced the most common edits (if-chain to switch, hoisting a repeated expression into a local, inverting an if into an early return, extracting ONE helper function, count-down loops, renaming locals). Prefer OTHER kinds this time: inline an existing small unexported helper into its callers (and delete it), split a function in two differently or merge two small functions, replace a flag variable by early returns (or the reverse), introduce or remove named result parameters, turn an index loop into a range loop (or back), replace an if/else assignment by a small table or switch expression, wrap a block in a closure that is called immediately, change how a value is passed (pointer vs value, struct vs fields), replace hand-written byte shuffling by encoding/binary (or back), move a lock/unlock pair into a tiny method, reorder switch cases, replace a type assertion chain by a type switch, use errors.New/fmt.Errorf interchangeably, replace x+=1 loops by different but equivalent arithmetic. ") if rnd else ""}Your task: find the code that implements the behaviour this property talks about, and produce FOUR independent changes (s1..s4, each applied separately to a clean tree) to that *non-test source code* such that each change
+{("Earlier rounds of this exercise already produced if-chain/switch conversions, hoisting into locals, early returns, extracting or inlining one helper, loop rewrites, flags, named results, closures and hand-written byte shuffling. Prefer OTHER kinds this time: rename an UNEXPORTED function, method, type, field or package-level variable consistently everywhere it is used; move a function to another file of the same package; change a method into a plain function taking the receiver as first parameter (or back); change the order of parameters of an unexported function; simplify or restructure boolean conditions (De Morgan, merging nested ifs, splitting a compound condition into two ifs); replace a comparison chain by a small lookup on constants; add an extra defensive check that returns an error for input that was already rejected a few lines later anyway; wrap returned errors with more context (fmt.Errorf with %v) without changing whether an error is returned; add debug logging or a metrics counter; replace `defer` cleanups by explicit cleanups on every path (or back); replace a struct literal by field assignments; use a local copy of a field read several times; replace `for i := range xs` + `xs[i]` by `for _, x := range xs` where the element is not modified. ") if rnd == "3" else ""}{("An earlier round of this exercise already produced the most common edits (if-chain to switch, hoisting a repeated expression into a local, inverting an if into an early return, extracting ONE helper function, count-down loops, renaming locals). Prefer OTHER kinds this time: inline an existing small unexported helper into its callers (and delete it), split a function in two differently or merge two small functions, replace a flag variable by early returns (or the reverse), introduce or remove named result parameters, turn an index loop into a range loop (or back), replace an if/else assignment by a small table or switch expression, wrap a block in a closure that is called immediately, change how a value is passed (pointer vs value, struct vs fields), replace hand-written byte shuffling by encoding/binary (or back), move a lock/unlock pair into a tiny method, reorder switch cases, replace a type assertion chain by a type switch, use errors.New/fmt.Errorf interchangeably, replace x+=1 loops by different but equivalent arithmetic. ") if rnd == "2" else ""}Your task: find the code that implements the behaviour this property talks about, and produce FOUR independent changes (s1..s4, each applied separately to a clean tree) to that *non-test source code* such that each change
   (a) PRESERVES the property and the observable behaviour completely: same results, same errors in the same situations, same locking/ordering guarantees. It must be the kind of edit a maintainer makes during ordinary upkeep: e.g. invert an if and return early, turn an if-chain into a switch (or back), hoist a repeated expression into a local variable, split a long function by extracting a helper (or inline a small helper), replace a manual loop by an equivalent one, reorder two independent statements, rename a LOCAL variable or an unexported helper FUNCTION, change an error message text, add logging, replace `defer mu.Unlock()` by explicit unlocks on every path (or the reverse), use a different but equivalent comparison (`len(x) == 0` vs `len(x) < 1`), strengthen a check (reject more clearly-invalid input earlier with an error) — be creative but stay strictly behaviour-preserving with respect to the property.
   (b) touches the code that matters for the property (the functions a checker for this property would have to look at), 5-40 changed lines each; the four changes should differ in kind and in site.
   (c) still compiles (`go build ./...` in the worktree root, and in tars/tools/tars2go if you touch it) and passes the existing test suite (`go test -vet=off -count=1 ./tars/...` from the worktree root; TestKetamaHashAlg_Hash in tars/selector/consistenthash already fails on the clean tree and is ignored; tars/util/rogger tests take ~20 s).
